@@ -1932,6 +1932,96 @@ func runR185(c *Ctx) {
 			return true
 		})
 	}
+	// which configuration field an authorizer value was built from – through
+	// local variables and through helper functions of this package that build
+	// several authorizers and return them
+	paramIndex := map[types.Object]int{}
+	funcDecls := map[types.Object]*ast.FuncDecl{}
+	for _, f := range pkg.Syntax {
+		for _, d := range f.Decls {
+			if fd, ok := d.(*ast.FuncDecl); ok && fd.Body != nil {
+				funcDecls[info.Defs[fd.Name]] = fd
+				i := 0
+				for _, fld := range fd.Type.Params.List {
+					for _, nm := range fld.Names {
+						paramIndex[info.Defs[nm]] = i
+						i++
+					}
+					if len(fld.Names) == 0 {
+						i++
+					}
+				}
+			}
+		}
+	}
+	var roleOfExpr func(e ast.Expr, depth int) string
+	roleOfExpr = func(e ast.Expr, depth int) string {
+		if depth > 4 {
+			return ""
+		}
+		switch x := e.(type) {
+		case *ast.SelectorExpr:
+			return x.Sel.Name
+		case *ast.Ident:
+			obj := info.Uses[x]
+			if obj == nil {
+				obj = info.Defs[x]
+			}
+			if i, ok := paramIndex[obj]; ok {
+				return fmt.Sprintf("param:%d", i)
+			}
+			d, ok := defs[obj]
+			if !ok {
+				return ""
+			}
+			callee := calleeOf(d.call)
+			if callee == nil {
+				return ""
+			}
+			if callee.Name() == "NewAuthorizerFromConfiguration" && d.idx == 0 && len(d.call.Args) > 0 {
+				return roleOfExpr(d.call.Args[0], depth+1)
+			}
+			fd := funcDecls[callee]
+			if fd == nil {
+				return ""
+			}
+			role := ""
+			consistent := true
+			ast.Inspect(fd.Body, func(n ast.Node) bool {
+				if _, isLit := n.(*ast.FuncLit); isLit {
+					return false
+				}
+				ret, ok := n.(*ast.ReturnStmt)
+				if !ok || len(ret.Results) <= d.idx {
+					return true
+				}
+				r := ret.Results[d.idx]
+				if id, ok := r.(*ast.Ident); ok && id.Name == "nil" {
+					return true
+				}
+				rr := roleOfExpr(r, depth+1)
+				var k int
+				if n, _ := fmt.Sscanf(rr, "param:%d", &k); n == 1 {
+					if k < len(d.call.Args) {
+						rr = roleOfExpr(d.call.Args[k], depth+1)
+					} else {
+						rr = ""
+					}
+				}
+				if role == "" {
+					role = rr
+				} else if role != rr {
+					consistent = false
+				}
+				return true
+			})
+			if !consistent {
+				return ""
+			}
+			return role
+		}
+		return ""
+	}
 	// (1) helper functions returning NewAuthorizingBlobAccess(...) at result index j
 	type helper struct {
 		obj types.Object
@@ -1966,16 +2056,7 @@ func runR185(c *Ctx) {
 							c.PassTrivial(fname, "authorizer-role-"+want[k], c.Pos(a.Pos()), "no authorizer for this operation")
 							continue
 						}
-						good := false
-						if id, ok := a.(*ast.Ident); ok {
-							if d, ok := defs[info.Uses[id]]; ok && d.idx == 0 && len(d.call.Args) > 0 {
-								if sel, ok := d.call.Args[0].(*ast.SelectorExpr); ok && sel.Sel.Name == want[k] {
-									if o := calleeOf(d.call); o != nil && o.Name() == "NewAuthorizerFromConfiguration" {
-										good = true
-									}
-								}
-							}
-						}
+						good := roleOfExpr(a, 0) == want[k]
 						c.Check(good, fname, "authorizer-role-"+want[k], c.Pos(a.Pos()), "built from configuration."+want[k], "the authorizer passed to NewAuthorizingBlobAccess in the position that guards "+want[k][:len(want[k])-len("Authorizer")]+"() is not the one built from configuration."+want[k]+": that operation is checked against another operation's policy")
 					}
 				}
